@@ -126,7 +126,13 @@ impl Tokenizer
 			Some(tree) => self.walk(&tree)?,
 			None => return Err(Box::new(lang::Error::Tokenization))
 		}
-		let next_addr = self.curr_addr + self.tokenized_line.len() as u16 + 3;
+		let next_addr = match u16::try_from(self.curr_addr as usize + self.tokenized_line.len() + 3) {
+			Ok(a) => a,
+			Err(_) => {
+				error!("program does not fit in the address space");
+				return Err(Box::new(lang::Error::Tokenization));
+			}
+		};
 		let by: [u8;2] = u16::to_le_bytes(next_addr);
 		self.tokenized_line.insert(0,by[0]);
 		self.tokenized_line.insert(1,by[1]);
